@@ -146,7 +146,9 @@ def run_case(case, tier):
     else:
         recs, _ = sources.chimera(rng)
     recs = sources.no_hydrogens(recs)
-    if case["kind"] == "built" and rng.random() < 0.1:
+    if case["kind"] == "built" and rng.random() < 0.1 and not any(r.raw is None and r.icode != " " for r in recs):
+        # (no residues that differ in the insertion code only: completing conformations merges such twins - the known
+        # finding - and a merged histidine sends the package's ring search into exponential time)
         # several models / alternate locations with mutants and missing residues: every conformation is completed
         # with atoms of the others, and each of them gets its own hydrogens
         from .. import multiconf
